@@ -2,30 +2,54 @@
 """Writes /verif/MANIFEST.json from the table below (kept in one place so it stays valid)."""
 import json
 import os
+import re
 
 VERIF = os.path.dirname(os.path.dirname(os.path.abspath(__file__)))
 ALL = ['C%02d' % i for i in range(1, 21)]
 
-CHECKS = {
-    'C15': dict(
-        technique='Coq proof (induction over chunk lists / line streams) about a hand model of the line buffer and T2-translated '
-                  'processors; extracted-model vs. implementation correspondence',
-        text='Theorems in coq/theories/Properties/C15.v: chunk independence for every pipeline state machine and every chunking that '
-             'does not separate CR from LF (full statement refuted by witness: known finding F-CRLF-SPLIT), identity for no-op '
-             'pipelines under every chunking, exact trimming of the translated TrimTrailingWhitespace (regex semantics in Coq), '
-             'bound/keeps-non-empty/subsequence for the translated LimitEmptyLines for every N>=0. Tie: processors and both regular '
-             'expressions are re-translated from /repo on every run (proofs re-checked), the buffering loop is tied by running the '
-             'extracted model and CodeGenerator._generate_with_line_buffer on the same chunk sequences.',
-        note='Trusted: Coq kernel; T2 translator (Python ast -> Gallina) and regex parser; table of Python whitespace code points; '
-             'extraction (ExtrOcamlBasic only) + OCaml driver; the hand model of the buffering loop is validated, not verified. '
-             'Not covered: _copy_header_using_line_pps (support files copied verbatim) is modelled but not part of the theorems.',
-        design='§5 C15'),
-}
+import importlib
+import sys
+
+sys.path.insert(0, VERIF)
+
+
+def collect():
+    checks = {}
+    d = os.path.join(VERIF, 'tools', 'checks')
+    for n in sorted(os.listdir(d)):
+        if re.fullmatch(r'c\d\d\.py', n):
+            m = importlib.import_module('tools.checks.' + n[:-3])
+            if hasattr(m, 'MANIFEST'):
+                checks[n[:-3].upper()] = m.MANIFEST
+    return checks
+
+
+def merge_known():
+    """known_findings.json = concatenation of known_findings.d/*.json (development-time merge; never at check time)"""
+    out = []
+    d = os.path.join(VERIF, 'known_findings.d')
+    for n in sorted(os.listdir(d)):
+        if n.endswith('.json'):
+            out.extend(json.load(open(os.path.join(d, n)))['findings'])
+    ids = [e['id'] for e in out]
+    assert len(ids) == len(set(ids)), 'duplicate finding ids'
+    doc = {'comment': KNOWN_COMMENT, 'findings': out}
+    with open(os.path.join(VERIF, 'known_findings.json'), 'w') as f:
+        json.dump(doc, f, indent=1)
+        f.write('\n')
+
+
+KNOWN_COMMENT = ("Genuine defects of the pinned OpenCyphal/nunavut tree found by the checks and recorded rather than repaired "
+                 "(status known), plus records of repaired ones (status fixed, with the fix: commit). Merged from known_findings.d/ "
+                 "by tools/mk_manifest.py at development time; never written at check time. A check prints KNOWN-FINDING only when "
+                 "the entry's witness still reproduces on /repo and only suppresses violations that satisfy the entry's trigger.")
 
 NOT_YET = 'check not built yet in this round (design in DESIGN.md §5); no claim is made'
 
 
 def main():
+    CHECKS = collect()
+    merge_known()
     checks = []
     for pid in ALL:
         if pid not in CHECKS:
